@@ -426,6 +426,11 @@ func init() {
 		}
 		r.Sample(bson.M{"doc": J(docs[40]), "filter": J(leaves[100].filter), "match": got[40][100]})
 		r.Sample(bson.M{"doc": J(docs[51]), "filter": J(leaves[700].filter), "match": got[51][700]})
+		sEvals, sRef, sLaws := c10Schema(c)
+		r.Set("jsonschema_evaluations", sEvals)
+		r.Set("jsonschema_in_reference_domain", sRef)
+		r.Set("jsonschema_law_checks", sLaws)
+		evals += sEvals
 		r.Set("evaluations", evals)
 		r.Set("in_reference_domain", inRef)
 		r.Set("laws_only", lawsOnly)
